@@ -29,35 +29,41 @@ def _val(ty, bs):
 
 
 def decode_layout(layout, vecs):
-    """vecs: list of byte lists, one per kani::any() call in call order. Arrays may arrive as one vector
-    of N bytes or as N one-byte vectors; both are accepted."""
-    expected = sum(ty[1] if isinstance(ty, tuple) else 1 for _n, ty in layout)
-    if len(vecs) != expected:
-        return None  # the slicer dropped some input steps: positions cannot be trusted
-    out = {}
-    i = 0
-    for name, ty in layout:
-        if i >= len(vecs):
-            out[name] = None
-            continue
-        if isinstance(ty, tuple) and ty[0] == "u64s":
-            vals = []
-            for _ in range(ty[1]):
-                if i < len(vecs):
-                    vals.append(int.from_bytes(bytes(vecs[i]), "little")); i += 1
-            out[name] = vals
-        elif isinstance(ty, tuple) and ty[0] == "bytes":
-            n = ty[1]
-            if len(vecs[i]) == n:
-                out[name] = list(vecs[i]); i += 1
-            else:
-                bs = []
-                while len(bs) < n and i < len(vecs) and len(vecs[i]) == 1:
-                    bs.append(vecs[i][0]); i += 1
-                out[name] = bs
+    """vecs: the concrete-playback byte vectors. Every harness input is drawn through verif_shim::Draw, which
+    widens it and pins the high bits to a running tag (1, 2, ...) in draw order = layout order; inputs whose
+    trace steps the slicer removed (the failing check does not depend on them) are simply absent and decode
+    as 0 / false."""
+    by_tag = {}
+    for v in vecs:
+        n = int.from_bytes(bytes(v), "little")
+        if len(v) == 4:
+            by_tag[n >> 8] = n & 0xFF
+        elif len(v) == 8:
+            by_tag[n >> 32] = n & 0xFFFFFFFF
+        elif len(v) == 16:
+            by_tag[n >> 64] = n & 0xFFFFFFFFFFFFFFFF
         else:
-            out[name] = _val(ty, vecs[i]); i += 1
-    out["_extra_vectors"] = len(vecs) - i
+            return None
+    out = {}
+    tag = 1
+    missing = 0
+    def take():
+        nonlocal tag, missing
+        if tag not in by_tag:
+            missing += 1
+        x = by_tag.get(tag, 0)
+        tag += 1
+        return x
+    for name, ty in layout:
+        if isinstance(ty, tuple):
+            out[name] = [take() for _ in range(ty[1])]
+        elif ty == "bool":
+            out[name] = bool(take() & 1)
+        else:
+            out[name] = take()
+    if any(t >= tag or t < 1 for t in by_tag):
+        return None  # a vector that does not belong to the layout: harness and registry disagree
+    out["_inputs_sliced_away"] = missing
     return out
 
 
@@ -208,6 +214,8 @@ PROPERTIES["C04"] = dict(
         kern("C04.id", "src/filters/network.rs", "h_network.rs", "c04_id", [Q], 30, 900, 8, ["filters::network::compute_filter_id", "NetworkFilter::get_id", "NetworkFilter::get_id_without_badfilter"],
              "two rule values y, z$badfilter: arbitrary mask, filter and hostname strings 0..=2 printable ASCII bytes, hostname present/absent, 0..=1 included-domain hash",
              ID_LAYOUT(2), "c04_id", asserts="(<=) same pattern+hostname+domains+mask => get_id_without_badfilter(z) == get_id(y); (=>) equal ids => same rule [known: id stream has no delimiters]; the mask is part of the id"),
+        kern("C04.idmask", "src/filters/network.rs", "h_network.rs", "c04_id_mask", [T], 120, 2400, 12, ["filters::network::compute_filter_id"],
+             "as C04.id with strings 0..=1 plus a second arbitrary mask", ID_LAYOUT(1), "c04_id", asserts="two rules that differ only in their option mask have different ids (the mask is part of the id)"),
         kern("C04.id3", "src/filters/network.rs", "h_network.rs", "c04_id3", [T], 120, 2400, 12, ["filters::network::compute_filter_id"], "as C04.id with strings 0..=3", ID_LAYOUT(3), "c04_id", asserts="as C04.id"),
     ],
     level_text="Decides badfilter identity at the level of the id function: a $badfilter twin of a rule (same pattern, hostname, domains, options) always produces the id that cancels it, and the option mask is part of the id; that badfilter rules never match is decided under C03.opts.",
